@@ -1025,6 +1025,14 @@ impl Check for C13 {
             }
             eprintln!("units {} probes {} per tree {:?}", table.len(), n, per_tree);
         }
+        if let Ok(path) = std::env::var("C13_UNITS") {
+            // development aid: the unit table of the tier, one line per unit
+            let mut out = String::new();
+            for (i, u) in unit_table(cfg.tier).iter().enumerate() {
+                out += &format!("{i}\t{u:?}\n");
+            }
+            let _ = std::fs::write(path, out);
+        }
         typos::selfcheck()?;
         handtable::check()
     }
